@@ -42,11 +42,14 @@ MESH = {"want": ("converge",), "claim": ("mesh:watcher-does-not-converge", "mesh
 
 FOREVER = 0xFFFFFF
 SERVICES = {1: (0x1111, 1, 1, 0), 2: (0x1111, 2, 1, 0), 3: (0x2222, 1, 1, 7), 4: (0x2222, 1, 1, 8), 5: (0x1111, 1, 2, 0)}  # 4, 5: near misses of filters F3 / F2
-SOURCES = {"A": ("10.0.5.1", 30490), "B": ("10.0.5.1", 30491)}  # same host, other port: keys must use the full address
+# same host, other port; one link-local IPv6 address behind two interfaces: keys must use the full socket address
+SOURCES = {"A": ("10.0.5.1", 30490), "B": ("10.0.5.1", 30491), "C": ("fe80::5", 30490, 0, 2), "D": ("fe80::5", 30490, 0, 3)}
 SRC_NAME = {v: k for k, v in SOURCES.items()}
 # registrations: name -> filter tuple (sid, iid, maj, minor) or None for watch-all
 REGS = {"F1": (0x1111, 0xFFFF, 0xFF, 0xFFFFFFFF), "F2": (0x1111, 1, 1, 0xFFFFFFFF), "ALL": None, "F3": (0x2222, 0xFFFF, 1, 7),
-        "F4": (0x1111, 0xFFFF, 0xFF, 0)}  # any instance, any major, pinned minor
+        "F4": (0x1111, 0xFFFF, 0xFF, 0),  # any instance, any major, pinned minor
+        "F5": (0x1111, 2, 0xFF, 0xFFFFFFFF)}  # registered with the SAME listener object as F3 (disjoint filters, one listener)
+SHARED = {"F3": "F3+F5", "F5": "F3+F5"}
 
 
 def fmatch(f, s):
@@ -110,7 +113,10 @@ class Run:
         self.events = {r: [] for r in REGS}  # reg -> [(seq, t, kind, svc, src, period)]
         self.period = {r: 0 for r in REGS}
         self.seq = itertools.count()
-        self.listeners = {r: self._listener(r) for r in REGS}
+        self.listeners = {r: self._listener(r) for r in REGS if r not in SHARED}
+        shared = self._listener(None)
+        for r in SHARED:
+            self.listeners[r] = shared
         self.model = Model()
         self.pos = 0
         self.executed = 0
@@ -126,12 +132,18 @@ class Run:
         run = self
         import someip.sd as S
 
+        def which(service):
+            # the shared listener serves two disjoint filters: the service id tells which registration a report belongs to
+            if reg is not None:
+                return reg
+            return "F3" if service.service_id == REGS["F3"][0] else "F5"
+
         class L(S.ClientServiceListener):
             def service_offered(self, service, source):
-                run._event(reg, "offered", service, source)
+                run._event(which(service), "offered", service, source)
 
             def service_stopped(self, service, source):
-                run._event(reg, "stopped", service, source)
+                run._event(which(service), "stopped", service, source)
 
         return L()
 
@@ -222,6 +234,20 @@ class Run:
         band = {k for k, v in m.live.items() if v["deadline"] != math.inf and abs(v["deadline"] - (T + RES)) <= RES}
         m.expire(T, inclusive=True)
         for reg, f in REGS.items():
+            if reg in SHARED and reg not in m.registered and reg not in self.retired and self.period[reg] and \
+                    any(o != reg and o in m.registered for o in SHARED):
+                # the listener object is still registered (through its other, disjoint filter): what it was last told about the
+                # services of the filter it gave up must not be a lingering 'offered' for an offer that is no longer live
+                latest = {}
+                for e in self.events[reg]:
+                    if e[5] == self.period[reg]:
+                        latest[(e[4], e[3])] = e
+                for key, le in latest.items():
+                    self.stats["idle_truth_checks"] += 1
+                    if key not in band and le[2] == "offered" and m.live.get(key) is None:
+                        self.fail("listener-says-offered-but-no-live-offer", reg, key[1], SOURCES[key[0]],
+                                  [e for e in self.events[reg] if e[3] == key[1] and e[4] == key[0]], extra="still registered through its other filter")
+                continue
             if reg not in m.registered or reg in self.retired:
                 continue
             latest = {}
@@ -337,7 +363,11 @@ class Builder:
             ents = []
             for svc, ttl in a["entries"]:
                 s = svc
-                ents.append(net.offer(s[0], s[1], s[2], s[3], ttl, o1=[refwire.ep4(SOURCES[src][0], 3000)] if ttl else []))
+                # (every fourth message also carries an SD endpoint option naming some other address: the offer is still the
+                #  sender's)
+                o1x = [refwire.ep4("10.0.0.99", 30490, typ=0x24)] if len(self.script) % 4 == 1 else []
+                ep = refwire.ep4(SOURCES[src][0], 3000) if ":" not in SOURCES[src][0] else refwire.ep6(SOURCES[src][0], 3000)
+                ents.append(net.offer(s[0], s[1], s[2], s[3], ttl, o1=o1x + ([ep] if ttl else [])))
             a["data"] = net.sd_bytes(ents, sid, reboot=flag)
             # light deadline model (expiries only matter for placement)
             for k in [k for k, d in self.deadlines.items() if d != math.inf and d < t - RES]:
@@ -449,7 +479,7 @@ def random_history(rng):
     # half of the histories have a "hot" offer (one source, one service, one TTL - infinite in half of them) that is
     # repeated verbatim, and a hot registration that comes and goes: what a repeated, unchanged offer means depends on
     # who was watching when it arrived before
-    hot = (rng.choice("AB"), SERVICES[rng.choice((1, 1, 2, 3))], rng.choice((FOREVER, FOREVER, 1, 2, 3)), rng.random() < 0.3) \
+    hot = (rng.choice("ABCD"), SERVICES[rng.choice((1, 1, 2, 3))], rng.choice((FOREVER, FOREVER, 1, 2, 3)), rng.random() < 0.3) \
         if rng.random() < 0.5 else None
     hot_reg = rng.choice(("ALL", "ALL", "F1", rng.choice(list(REGS))))
     for _ in range(n):
@@ -458,14 +488,14 @@ def random_history(rng):
             if hot and rng.random() < 0.6:
                 a = dict(kind="msg", src=hot[0], mc=hot[3], entries=[(hot[1], hot[2])], reboot=False)
             else:
-                src = rng.choice("AAB")
+                src = rng.choice("AABCD")
                 k = rng.choice((1, 1, 1, 2, 3, 4, 5))
                 ents = [(SERVICES[k], rng.choice((0, 1, 1, 2, 3, FOREVER)))]
                 if rng.random() < 0.15:
                     ents.append((SERVICES[rng.choice((1, 2, 3, 4, 5))], rng.choice((0, 1, 2, FOREVER))))
                 a = dict(kind="msg", src=src, mc=rng.random() < 0.3, entries=ents, reboot=rng.random() < 0.12)
         elif r < 0.6:
-            a = dict(kind="msg", src=rng.choice("AB"), mc=False, entries=[], reboot=True)
+            a = dict(kind="msg", src=rng.choice("ABCD"), mc=False, entries=[], reboot=True)
         elif r < 0.64:
             a = dict(kind="lost")
         elif r < 0.69 and b.regs:
